@@ -1,8 +1,11 @@
 /-
   OnTime9 — the machines held in the ingest pool for one observation
-  (`ingestHeld`): from its provisioning block until the first of its ingest
-  bodies ends, exactly the pipeline demand (`OtCount`), along the runs in which
-  no exception has been raised.
+  (`ingestHeld`): from its provisioning block until the first of its allocation
+  processes ends, exactly the pipeline demand (`OtCount`), along the runs in which
+  no exception has been raised; an allocation process ends at `ast + duration` or
+  later (`OtRel`).
+  -- F13: `OtCount` was "until the first of its ingest BODIES ends" (`NoDeadBody`); with the
+  -- repair a machine stays with its task after the body has ended, until `now ≥ aft`.
 -/
 import TopsimProofs.OnTime8
 
@@ -35,6 +38,16 @@ def Provisioned (s : Sys) (o : Oid) : Prop := ∃ q ∈ s.procs, ∃ d, q.k = .p
 /-- no body of an ingest task of observation `o` has ended -/
 def NoDeadBody (s : Sys) (o : Oid) : Prop :=
   ∀ r ∈ s.procs, ∀ i m c ph tot, r.k = .doWork (.ingest o i) m c ph tot → r.alive = true
+
+/-- F13: no ingest allocation process of observation `o` has ended -/
+def NoDeadAlloc (s : Sys) (o : Oid) : Prop :=
+  ∀ q ∈ s.procs, ∀ t m preds ret, q.k = .allocTask t m preds (some o) true ret → q.alive = true
+
+theorem ot_cast_pred_succ (a D : Nat) (hD : 1 ≤ D) :
+    ((a + (D - 1) : Nat) : Time) + 1 = ((a + D : Nat) : Time) := by
+  rw [lcCast_succ]
+  congr 1
+  omega
 
 theorem ot_ilDemand_keep {s s' : Sys} (h : ObsKeep s s') (o : Oid) : s'.ilDemand o = s.ilDemand o := by
   unfold ilDemand
@@ -116,7 +129,8 @@ theorem ot_provisionIngest_len (c : Cluster) (d : Nat) (o : Oid) (h : (c.provisi
 
 /-! ### the invariant -/
 
-def OtCount (s : Sys) : Prop := ∀ o, Provisioned s o → NoDeadBody s o → s.ingestHeld o = s.ilDemand o
+-- F13: `NoDeadBody` -> `NoDeadAlloc`
+def OtCount (s : Sys) : Prop := ∀ o, Provisioned s o → NoDeadAlloc s o → s.ingestHeld o = s.ilDemand o
 
 theorem otCount_start (s0 : Sys) (hw : WFConfig s0) : OtCount s0.start := by
   intro o ⟨q, hq, d, hk, _⟩
@@ -124,7 +138,7 @@ theorem otCount_start (s0 : Sys) (hw : WFConfig s0) : OtCount s0.start := by
   simp only [List.mem_cons, List.not_mem_nil, or_false] at hq
   rcases hq with rfl | rfl | rfl | rfl | rfl <;> simp at hk
 
-theorem otCount_step {s : Sys} (hs : SInv s) (hti : ILTI s) (hil : ILInv s) (h : OtCount s) {pid : Nat}
+theorem otCount_step {s : Sys} (hs : SInv s) (_hti : ILTI s) (hil : ILInv s) (h : OtCount s) {pid : Nat}
     {p : Proc} (hp : s.proc? pid = some p) (ha : p.alive = true)
     (hmin : ∀ q ∈ s.procs, q.alive = true → p.wake ≤ q.wake) (orc : Oracle)
     (hpre : s.alg = .oracle → orc.preOk) (hnr : ∀ e, (s.block p orc).2.2 ≠ .raised e) :
@@ -137,13 +151,13 @@ theorem otCount_step {s : Sys} (hs : SInv s) (hti : ILTI s) (hil : ILInv s) (h :
   have hdem : ∀ o, (s.resume pid orc).1.ilDemand o = s.ilDemand o :=
     ot_ilDemand_keep (ot_resume_keep s pid orc p hp ha)
   intro o hprov hnd
-  -- no body of `o` had ended before
-  have hnd0 : NoDeadBody s o := by
-    intro r hr i m c ph tot hk
+  -- no allocation process of `o` had ended before
+  have hnd0 : NoDeadAlloc s o := by
+    intro r hr t m c ret hk
     by_cases e : r.pid = p.pid
     · have : r = p := hs.pw.eq_of_pid hr hpm e
       rw [this]; exact ha
-    · exact hnd r ((hm r).mpr (Or.inr (Or.inl ⟨hr, e⟩))) i m c ph tot hk
+    · exact hnd r ((hm r).mpr (Or.inr (Or.inl ⟨hr, e⟩))) t m c ret hk
   -- a provisioning process of `o` that has run, other than the one that ran just now, is an old one
   have hprovOld : (∀ d, (s.block p orc).2.1 = .provIngest o d → Provisioned s o) → Provisioned s o := by
     intro hself
@@ -272,25 +286,13 @@ theorem otCount_step {s : Sys} (hs : SInv s) (hti : ILTI s) (hil : ILInv s) (h :
       obtain ⟨f1, f2, _, _⟩ := allocEnd_fields s.cl t m obs ing hok
       have hpc := hU.pc_pos hpm ha hk hrun
       by_cases hmine : ing = true ∧ obs = some o
-      · -- a machine of `o` is given back: the body has ended
+      · -- a machine of `o` is given back: the allocation process has ended
         exfalso
         obtain ⟨hi, ho⟩ := hmine
         subst hi ho
-        obtain ⟨⟨i, hti'⟩, r, hr, hrp, _, phr, totr, hrk, _⟩ := hti.atRun p hpm ha hpc t m preds o ret hk
-        subst hti'
-        have hdead : r.alive = false := by
-          unfold procTriggered at htr
-          have := hs.pw.proc?_of_mem hr
-          rw [hrp] at this
-          rw [this] at htr
-          simpa using htr
-        have hrne : r.pid ≠ p.pid := by
-          intro e
-          have : r = p := hs.pw.eq_of_pid hr hpm e
-          rw [this, hk] at hrk
-          cases hrk
-        have := hnd r ((hm r).mpr (Or.inr (Or.inl ⟨hr, hrne⟩))) i m [] phr totr hrk
-        rw [hdead] at this; cases this
+        have := hnd _ ((hm _).mpr (Or.inl rfl)) t m preds ret (by rw [fin_k, hb, heq])
+        rw [hb, heq] at this
+        simp at this
       · rw [← hIH hp0]
         unfold ilEntCount Cluster.ilEntries
         rw [f1, f2, List.countP_append, List.countP_append, List.countP_filter, List.countP_filter]
@@ -379,6 +381,74 @@ theorem otCount_step {s : Sys} (hs : SInv s) (hti : ILTI s) (hil : ILInv s) (h :
     rw [hk', hk] at htag
     simp [PK.tag] at htag
 
+/-! ### an allocation process ends at `ast + duration` or later (F13) -/
+
+/-- an ingest allocation process that has ended ran its last block (the one that gives the machine
+back) at `ast + duration` or later -/
+def OtRel (s : Sys) : Prop :=
+  ∀ q ∈ s.procs, q.alive = false → ∀ t m preds o ret, q.k = .allocTask t m preds (some o) true ret →
+    ∃ ob a, s.obs? o = some ob ∧ ob.ast = some a ∧ (((a + ob.duration : Nat) : Nat) : Time) ≤ q.wake
+
+theorem otRel_start (s0 : Sys) (hw : WFConfig s0) : OtRel s0.start := by
+  intro q hq _ t m preds o ret hk
+  rw [start_procs s0 hw] at hq
+  simp only [List.mem_cons, List.not_mem_nil, or_false] at hq
+  rcases hq with rfl | rfl | rfl | rfl | rfl <;> simp at hk
+
+theorem otRel_step {s : Sys} (hs : SInv s) (hti : ILTI s) (hA : OtAst s) (hB : OtBody s) (h : OtRel s)
+    {pid : Nat} {p : Proc} (hp : s.proc? pid = some p) (ha : p.alive = true)
+    (hmin : ∀ q ∈ s.procs, q.alive = true → p.wake ≤ q.wake) (orc : Oracle)
+    (hnr : ∀ e, (s.block p orc).2.2 ≠ .raised e) : OtRel (s.resume pid orc).1 := by
+  obtain ⟨hpm, hpid⟩ := proc?_some hp
+  obtain ⟨U, hU⟩ := hs.ci
+  obtain ⟨new, hm, hnew, hnewp⟩ := ot_step_table hs hp ha hmin orc
+  have hobsKeep : ∀ o ob a, s.obs? o = some ob → ob.ast = some a →
+      ∃ ob', (s.resume pid orc).1.obs? o = some ob' ∧ ob'.ast = some a ∧ ob'.duration = ob.duration := by
+    intro o ob a hob hast
+    obtain ⟨ob', h1, h2, h3⟩ := ot_ast_persist hs hti hA hp ha hmin orc hob hast
+    exact ⟨ob', h1, h2, (ot_stat_fields h3).2.2.1⟩
+  intro q hq hqa t m preds o ret hqk
+  rcases (hm q).mp hq with rfl | ⟨hq0, _⟩ | hqn
+  · -- the process that ran: an allocation process in its last block
+    simp only [fin_k] at hqk
+    have htag := block_tag s hs.pw p orc
+    rw [hqk] at htag
+    cases hpk : p.k <;> rw [hpk] at htag <;> simp [PK.tag] at htag
+    rename_i t0 m0 preds0 obs0 ing0 ret0
+    have hb : s.block p orc = s.allocTaskBlock p.wake t0 m0 preds0 obs0 ing0 ret0 := block_allocTask orc hpk
+    rcases allocTaskBlock_cases' s hs.pw p.wake t0 m0 preds0 obs0 ing0 ret0 with
+      ⟨_, e, _, heq⟩ | ⟨_, _, heq⟩ | ⟨_, _, heq⟩ | ⟨_, _, e, _, heq⟩ | ⟨hrun, ⟨htr, haft⟩, hok, heq⟩
+    · exact absurd (by rw [hb, heq]) (hnr e)
+    · rw [hb, heq] at hqa; simp [ha] at hqa
+    · rw [hb, heq] at hqa; simp [ha] at hqa
+    · exact absurd (by rw [hb, heq]) (hnr e)
+    · rw [hb, heq] at hqk
+      injection hqk with e1 e2 e3 e4 e5 e6
+      subst e1 e2 e3 e4 e5 e6
+      have hpc := hU.pc_pos hpm ha hpk hrun
+      obtain ⟨⟨i, hti'⟩, r, hr, hrp, _, phr, totr, hrk, _⟩ := hti.atRun p hpm ha hpc _ _ _ _ _ hpk
+      subst hti'
+      have hdead : r.alive = false := by
+        unfold procTriggered at htr
+        have := hs.pw.proc?_of_mem hr
+        rw [hrp] at this
+        rw [this] at htr
+        simpa using htr
+      have h2 := hB.deadPh r hr o i _ _ phr totr hrk hdead
+      obtain ⟨ob, a, _, hob, hast, hwk, _, _⟩ := hB.started r hr o i _ _ phr totr hrk h2
+      obtain ⟨rec, hrec, hraft⟩ := hB.ended r hr o i _ _ phr totr hrk hdead
+      have h7 := aftReached_eq_true haft rec _ hrec hraft
+      have hD := hti.durPos ob (obs_mem_of_obs? hob).1
+      rw [hwk, ot_cast_pred_succ a ob.duration hD] at h7
+      obtain ⟨ob', hob', hast', hdur'⟩ := hobsKeep o ob a hob hast
+      refine ⟨ob', a, hob', hast', ?_⟩
+      rw [hdur', hb, heq]
+      exact h7
+  · obtain ⟨ob, a, hob, hast, hle⟩ := h q hq0 hqa t m preds o ret hqk
+    obtain ⟨ob', hob', hast', hdur'⟩ := hobsKeep o ob a hob hast
+    exact ⟨ob', a, hob', hast', by rw [hdur']; exact hle⟩
+  · rw [(hnewp q hqn).1] at hqa; cases hqa
+
 end Sys
 
 /-- `OtCount` holds in every state of every run of the simulator in which no exception has been
@@ -393,5 +463,19 @@ theorem sim_otCount (env : SimEnv) (s0 : Sys) (hw : WFConfig s0) (k : SimState) 
   rw [hp] at hp'; cases hp'
   obtain ⟨hc0, hnr⟩ := ot_resume_crashed k.st pid (env.oracle k.st) p hp ha hc
   exact otCount_step hinv.sinv hinv.ti hinv.il (ih hc0) hp ha hmin _ (fun _ => il_oracle_preOk env k.st) hnr
+
+/-- `OtRel` holds in every state of every run of the simulator in which no exception has been
+raised so far -/
+theorem sim_otRel (env : SimEnv) (s0 : Sys) (hw : WFConfig s0) (k : SimState) (h : SimReach env s0 k) :
+    k.st.crashed = none → OtRel k.st := by
+  refine SimReach.sys_induct hw (fun s => s.crashed = none → OtRel s) (fun _ => otRel_start s0 hw)
+    (fun s hs hc => hs hc) (fun s hs hc => hs hc) ?_ k h
+  intro k hr ih pid p hp ha hen hc
+  have hinv := hr.l3inv hw
+  obtain ⟨p', hp', _, hmin⟩ := hen
+  rw [hp] at hp'; cases hp'
+  obtain ⟨hc0, hnr⟩ := ot_resume_crashed k.st pid (env.oracle k.st) p hp ha hc
+  exact otRel_step hinv.sinv hinv.ti (sim_otAst env s0 hw k hr) (sim_otBody env s0 hw k hr hc0) (ih hc0)
+    hp ha hmin _ hnr
 
 end Topsim
